@@ -219,13 +219,25 @@ func readOne(rd *kgo.RecordReader, i int) (*kgo.Record, error) {
 	return r, err
 }
 
-// readBack is the oracle: a fresh RecordReader with the same layout string
-// must return the records field for field and then io.EOF.
-func readBack(l *layout, stream []byte, recs []rec, rk int, br *bufio.Reader) *failure {
-	rd, err := kgo.NewRecordReader(source(br, rk, stream), l.str)
-	if err != nil {
-		return &failure{kind: "reader-rejects-layout", err: err.Error()}
+// readBack is the oracle: a RecordReader with the same layout string must
+// return the records field for field and then io.EOF. reuse, if non-nil, is a
+// reader of this layout that has so far only read complete streams up to their
+// io.EOF; it is pointed at the new stream with SetReader (a failure seen that
+// way is re-run by the caller with a fresh reader before it counts).
+func readBack(l *layout, stream []byte, recs []rec, rk int, br *bufio.Reader, reuse *kgo.RecordReader) (*failure, *kgo.RecordReader) {
+	rd := reuse
+	if rd != nil {
+		rd.SetReader(source(br, rk, stream))
+	} else {
+		var err error
+		if rd, err = kgo.NewRecordReader(source(br, rk, stream), l.str); err != nil {
+			return &failure{kind: "reader-rejects-layout", err: err.Error()}, nil
+		}
 	}
+	return readAll(l, rd, recs), rd
+}
+
+func readAll(l *layout, rd *kgo.RecordReader, recs []rec) *failure {
 	for i := range recs {
 		got, err := readOne(rd, i)
 		switch {
